@@ -4,7 +4,7 @@ import ast as pyast
 
 import z3
 
-from .symexec import (Infeasible, ListObj, Raised, Sym, Unsupported, _Return)
+from .symexec import (Infeasible, ListObj, Raised, SBool, Sym, Unsupported, _Return)
 
 # ------------------------------------------------------------------------------------------
 # Shape of ASTs the parser can produce (field kinds).  This is the *precondition* of every
@@ -147,8 +147,15 @@ class Specs:
 # ------------------------------------------------------------------------------------------
 # loop invariant rule for `for item in <symbolic sequence>` (DESIGN 5.5 / C14 / C16)
 # ------------------------------------------------------------------------------------------
+class InvariantMismatch(Exception):
+    """The registered invariant does not fit the loop as it is now written (cannot even be evaluated)."""
+
+
 class LoopStepDone(Exception):
     """Raised to end a path that checked one arbitrary iteration of a loop."""
+
+
+from .symexec import _Continue as _LoopContinue  # noqa: E402
 
 
 class SeqLoopInvariant:
@@ -161,25 +168,58 @@ class SeqLoopInvariant:
         self.on_entry = on_entry        # on_entry(E, path, frame, entry_dict): snapshot values at loop entry
 
     def run(self, E, path, frame, stmt, iterable):
+        from .symexec import EnumIter, SInt
         U = E.U
+        enum_start = None
+        if isinstance(iterable, EnumIter):
+            enum_start = iterable.start
+            iterable = iterable.inner
         whole = E.symbolic_seq(path, iterable)
         path.ghost["_entry"] = {g: path.ghost.get(g) for g in self.ghost}
-        if self.on_entry is not None:
-            self.on_entry(E, path, frame, path.ghost["_entry"])
-        path.oblige("inv.init", self.inv(E, path, frame, whole, whole))
+        try:
+            if self.on_entry is not None:
+                self.on_entry(E, path, frame, path.ghost["_entry"])
+            init = self.inv(E, path, frame, whole, whole)
+        except (Unsupported, Raised, KeyError, AttributeError, TypeError) as ex:
+            raise InvariantMismatch(f"{type(ex).__name__}: {ex}")
+        path.oblige("inv.init", init)
         for g in self.ghost:
             path.ghost[g] = U.fresh("hv_" + g, U.Seq)
         mods = self.modifies or _modified_names(stmt)
+        typed = {}
         for name in mods:
             if not frame.is_local(name):
                 continue
             cur = frame.lookup(path, name)
+            # havoc keeps the runtime type of the variable (checked again at the end of the arbitrary iteration:
+            # clause inv.type), so that the body is not explored for 48 impossible types
+            tag = None
+            if isinstance(cur, ListObj):
+                tag = "ListV"
+            elif isinstance(cur, Sym):
+                t = z3.simplify(cur.term)
+                tag = U.ctor_name(t) or path.tags.get(t.get_id())
+                if tag is None:
+                    for cand in ("ListV", "StrV", "TupleV", "NoneV"):
+                        if path.entails(U.is_tag(cand, t)):
+                            tag = cand
+                            break
             if isinstance(cur, ListObj):
                 nl = ListObj(U.fresh("hv_" + name, U.Seq), fresh=cur.fresh)
                 nl.published = cur.published
                 _rebind(frame, name, nl)
+            elif tag == "ListV":
+                _rebind(frame, name, ListObj(U.fresh("hv_" + name, U.Seq), fresh=False))
+            elif isinstance(cur, bool):
+                _rebind(frame, name, SBool(U.fresh("hv_" + name, z3.BoolSort())))
+                tag = "bool"
             else:
-                _rebind(frame, name, Sym(U.fresh("hv_" + name)))
+                h = U.fresh("hv_" + name)
+                if tag is not None:
+                    path.assume_fact(U.is_tag(tag, h))
+                    path.tags[h.get_id()] = tag
+                _rebind(frame, name, Sym(h))
+            typed[name] = tag
         rest = U.fresh("rest", U.Seq)
         done = U.fresh("done", U.Seq)
         path.assume(whole == z3.Concat(done, rest))
@@ -189,9 +229,26 @@ class SeqLoopInvariant:
             path.assume(z3.Length(rest) > 0)
             path.assume(self.inv(E, path, frame, rest, whole))
             item = E.from_pv(z3.simplify(rest[0]), path)
+            if enum_start is not None:
+                item = (SInt(z3.Length(done) + enum_start), item)
             E.assign(path, frame, stmt.target, item)
-            E.exec_block(path, frame, stmt.body)
+            try:
+                E.exec_block(path, frame, stmt.body)
+            except _LoopContinue:
+                pass
             path.oblige("inv.step", self.inv(E, path, frame, z3.SubSeq(rest, 1, z3.Length(rest) - 1), whole))
+            for name, tag in typed.items():
+                if tag is None:
+                    continue
+                v = frame.lookup(path, name)
+                if tag == "bool":
+                    ok = isinstance(v, (bool, SBool))
+                elif tag == "ListV":
+                    ok = isinstance(v, ListObj) or (isinstance(v, Sym) and path.entails(U.is_tag("ListV", v.term)))
+                else:
+                    ok = isinstance(v, Sym) and path.entails(U.is_tag(tag, v.term)) or \
+                        (tag == "StrV" and isinstance(v, (str,))) or (tag == "NoneV" and v is None)
+                path.oblige("inv.type", z3.BoolVal(bool(ok)), {"variable": name, "type": tag})
             raise LoopStepDone()
         path.assume(rest == z3.Empty(U.Seq))
         path.assume(self.inv(E, path, frame, rest, whole))
